@@ -143,9 +143,25 @@ PROPS = {
              COMMON_ASSUME + ["the goroutine that calls Stop() first waits for GetAddress() != nil (the only readiness signal the API offers)",
                               "udp runs where fewer than half of the datagrams are delivered are inconclusive, not held", "DTLS is excluded by the property"],
              "runtime monitor: offline exactly-once/order checker over a recorded event log + goroutine/socket leak probes; race detector; GOMAXPROCS sweep"),
+    "C14": P(True, (16, 16), 16, (1800, 7200), 100, 40, "exploration",
+             "one evaluation = one exporter session; 8 sessions of 3 kinds run concurrently per group. refresh: UDP exporter with the 1 s "
+             "minimum refresh interval against a raw UDP peer, one application goroutine sending 1..4 templates (one more mid-run in half of "
+             "the sessions) and paced data (bursts / 0-2 ms gaps / idle) for 4.3 s: every datagram exactly one well-formed message, application "
+             "messages unaltered and in order, every refresh copy equal to the original template, per-template refresh counts within 1 of each "
+             "other, sequence numbers following the running record count in capture order; zero refresh copies after 4 and then 8 intervals "
+             "is a violation. peerclose: TCP exporter, CheckConnInterval 25 ms, peer closes, silent wait 1/2/4 s, the first SendSet must "
+             "fail. close: CloseConnToCollector from 1..8 goroutines twice each while the application goroutine sends: returns (30 s bound), "
+             "SendSet after it fails, peer stream == acknowledged sends (+ at most one failed send or a prefix of it), well-formed datagrams. "
+             "At the end no goroutine with a pkg/exporter frame may remain. Non-trivial = application data fell between two datagrams of one "
+             "refresh round / close noticed / a Close raced acknowledged sends.",
+             COMMON_ASSUME + ["rounds are recognised structurally (a template id repeating starts a new round), not by wall-clock gaps",
+                              "loss of a datagram on loopback makes a refresh session inconclusive"],
+             "runtime monitor: per-datagram parser + refresh-round model + prefix-of-acknowledged-sends model at a raw peer; goroutine leak probe; race detector"),
 }
 
 LEVEL_TEXT = {
+    "C14": "Held on every session explored; timings of application sends relative to refresh ticks, connection checks, peer close and "
+           "concurrent Close calls are sampled with different pacing per session, under the race detector.",
     "C12": "Held on every run explored. Schedules are sampled (client counts, pacing, GOMAXPROCS, Stop timing), not enumerated; unique "
            "message ids make the exactly-once and order check exact on each recorded run.",
     "C01": "Held on every case explored on each of the 8 transport configurations, with both processes running their real goroutines "
